@@ -93,6 +93,32 @@ Theorem C13_host_history_restores : forall M evs st,
 Proof. exact host_history_restores. Qed.
 Print Assumptions C13_host_history_restores.
 
+(* the exit kind (return / Exception / non-Exception BaseException such as KeyboardInterrupt, SystemExit)
+   is a parameter: with `finally` restoration holds for EVERY kind *)
+Theorem C13_restores_for_every_exit_kind : forall M specs f xk body h,
+  sync_fault f -> body_restores body ->
+  forall u b, fst (with_patches_k M HFinally true specs f xk body h) u b = h u b.
+Proof. exact restores_for_every_exit_kind. Qed.
+Print Assumptions C13_restores_for_every_exit_kind.
+
+Theorem C13_refcount_restores_for_every_exit_kind : forall M ks f xk body h ps,
+  sync_fault f -> ps_wf ps -> amp_body_exact body ->
+  let r := with_amp_k M HFinally ks f xk body (h, ps) in
+  (forall t a, snd (fst r) t a = ps t a) /\ (forall u b, fst (fst r) u b = h u b).
+Proof. exact refcount_restores_for_every_exit_kind. Qed.
+Print Assumptions C13_refcount_restores_for_every_exit_kind.
+
+(* REFUTED for the handler shape `except Exception: restore; raise / else: restore` *)
+Theorem C13_except_exception_handler_refuted : exists M specs h t a,
+  lookup M (fst (with_patches_k M HExceptExceptionElse true specs NoFault ExitBaseException
+                   (fun x => (x, Raised)) h)) t a <> lookup M h t a /\
+  lookup M (fst (with_patches_k M HExceptExceptionElse true specs NoFault ExitException
+                   (fun x => (x, Raised)) h)) t a = lookup M h t a /\
+  lookup M (fst (with_patches_k M HFinally true specs NoFault ExitBaseException
+                   (fun x => (x, Raised)) h)) t a = lookup M h t a.
+Proof. exact except_exception_handler_refuted. Qed.
+Print Assumptions C13_except_exception_handler_refuted.
+
 (* what still needs its premise: no exception between setattr and the bookkeeping (asynchronous only) *)
 Theorem C13_async_fault_after_setattr_leaks : exists M h specs k t a, forall fixed,
   lookup M (fst (with_patches M fixed specs (AfterSet k) (fun x => (x, Returned)) h)) t a <> lookup M h t a.
